@@ -1,6 +1,8 @@
 import RbV.Spec.Interval
 import RbV.Ref.AvlCheck
 import RbV.Model.AvlProofs
+import RbV.Model.AMapProofs
+import RbV.Model.IitIndex
 /-!
 # C07 — interval trees and the annotation map report exactly the overlapping entries; the AVL tree stays balanced
 
@@ -146,5 +148,67 @@ example :
   rw [this]
 
 example : ht (runModel [HOp.ins ⟨1, 9, 0⟩, .ins ⟨2, 3, 1⟩, .ins ⟨3, 4, 2⟩, .ins ⟨3, 8, 3⟩] .nil) = 3 := by decide
+
+/-! ## `AnnotMap`: one tree per reference id -/
+
+/-- `AnnotMap::find` = the overlap filter on the entries stored under the queried reference id (nothing for an
+absent id) -/
+theorem amap_find_correct (m : AMap) (r : Nat) (q : Query) (hw : m.WF) (hq : q.lo < q.hi) :
+    (m.find r q).Perm (expected (m.storedAt r) q) :=
+  AMap.find_perm m r q hw hq
+
+/-- `insert_at` keeps the map well-formed and adds the entry under its id only -/
+theorem amap_insert (m : AMap) (r : Nat) (e : Entry) (hw : m.WF) (he : e.lo < e.hi) (r' : Nat) :
+    (m.insertAt r e).WF ∧ ((m.insertAt r e).storedAt r').Perm ((if r = r' then [e] else []) ++ m.storedAt r') :=
+  ⟨AMap.wf_insertAt m r e hw he, AMap.storedAt_insertAt m r e r'⟩
+
+example : AMap.storedAt (AMap.insertAt (AMap.insertAt (AMap.insertAt [] 1 ⟨2, 5, 7⟩) 0 ⟨2, 5, 8⟩) 1 ⟨4, 6, 9⟩) 1
+    = [⟨2, 5, 7⟩, ⟨4, 6, 9⟩] := by decide
+
+/-! ## mirror model of the array-backed tree: every n, every history of `insert` / `index` -/
+
+open RbV.Iit in
+/-- the explicit-stack search of `find_into` on a start-sorted array whose `max` fields bound the in-range part
+of every implicit subtree returns exactly the overlapping entries, in index order — for every `n`, power of two
+or not -/
+theorem iit_find_correct (a : List Cell) (K : Nat) (q : Query) (hs : SortedC a) (hm : MaxUB a)
+    (hK : a.length < 2 ^ (K + 1)) :
+    findLoop a a.length q [⟨K, (1 <<< K) - 1, false⟩] = expected (a.map (·.e)) q :=
+  find_eq a K q hs hm hK
+
+open RbV.Iit in
+/-- `index_core` (level-by-level `max` with the imaginary right spine tracked by `last_i`/`last_value`)
+establishes exactly those hypotheses, for every `n` and whatever the `max` fields held before; it changes no
+entry -/
+theorem iit_index_establishes (a : List Cell) (ml : Nat) (hs : SortedC a) :
+    (indexCore a ml).1.map (·.e) = a.map (·.e) ∧ SortedC (indexCore a ml).1 ∧ MaxUB (indexCore a ml).1 ∧
+      (indexCore a ml).1.length < 2 ^ ((indexCore a ml).2 + 1) :=
+  indexCore_spec a ml hs
+
+open RbV.Iit in
+/-- every history of `insert` and `index` from the empty tree: a query is refused (`none`) iff the tree is not
+indexed at that point (i.e. something was inserted after the last `index`, or `index` was never called), and
+otherwise returns exactly the multiset of inserted entries that overlap — after the first indexing and again
+after further inserts and re-indexing -/
+theorem iit_history_correct (ops : List AOp) (q : Query) :
+    ∃ stored, stored.Perm (insertedOf ops) ∧
+      (runArr ops {}).find q = if endsIndexed ops false then some (expected stored q) else none := by
+  obtain ⟨hw, hp, hi⟩ := runArr_spec ops {} wf_empty
+  refine ⟨(runArr ops {}).stored, by simpa [State.stored] using hp, ?_⟩
+  rw [find_spec _ q hw, hi]
+
+open RbV.Iit in
+/-- … in particular the answer is a permutation of the expected answer over the inserted entries -/
+theorem iit_history_perm (ops : List AOp) (q : Query) (l : List Entry) (h : (runArr ops {}).find q = some l) :
+    l.Perm (expected (insertedOf ops) q) := by
+  obtain ⟨stored, hp, hf⟩ := iit_history_correct ops q
+  rw [hf] at h
+  split at h
+  · cases h; exact hp.filter _
+  · cases h
+
+open RbV.Iit in
+example : endsIndexed [AOp.ins ⟨1, 2, 0⟩, .index, .ins ⟨0, 9, 1⟩] false = false ∧
+    endsIndexed [AOp.ins ⟨1, 2, 0⟩, .index, .ins ⟨0, 9, 1⟩, .index] false = true := by decide
 
 end RbV.Thm.C07
